@@ -107,6 +107,23 @@ Theorem c18_replace_is_split_then_join :
 Proof. exact replace_is_split_then_join. Qed.
 Print Assumptions c18_replace_is_split_then_join.
 
+From Coq Require Import QArith.
+Close Scope Q_scope.
+From WTP Require Import Proofs.NumEqProofs.
+(* the comparison of #ifeq and #switch: same text, or both numbers with the same value (01 = 1.0 = 1e0 = 10e-1) *)
+Theorem c18_ifeq_comparison_is_same_text_or_same_value :
+  forall a b, mw_equal a b = true <->
+    a = b \/ exists x y, parse_number a = Some x /\ parse_number b = Some y /\ (qval x == qval y)%Q.
+Proof. exact mw_equal_is_same_text_or_same_value. Qed.
+Print Assumptions c18_ifeq_comparison_is_same_text_or_same_value.
+
+Example c18_ifeq_comparison_example :      (* "01" ~ "1.0" ~ "10e-1", "1" !~ "1a", "-0" ~ "0", "a" ~ "a", "a" !~ "A" *)
+  mw_equal [48; 49]%N [49; 46; 48]%N = true /\ mw_equal [49; 46; 48]%N [49; 48; 101; 45; 49]%N = true /\
+  mw_equal [49]%N [49; 97]%N = false /\ mw_equal [45; 48]%N [48]%N = true /\ mw_equal [97]%N [97]%N = true /\
+  mw_equal [97]%N [65]%N = false /\
+  (exists x, parse_number [49; 48; 101; 45; 49]%N = Some x /\ (qval x == 1)%Q).
+Proof. repeat split; try (vm_compute; reflexivity). eexists. split; [vm_compute; reflexivity | reflexivity]. Qed.
+
 Example c18_string_functions_example :
   find_from [97%N] [98%N; 97%N; 99%N; 97%N] 0 = Some 1%nat /\ rfind_from [97%N] [98%N; 97%N; 99%N; 97%N] 0 = Some 3%nat /\
   split_fn [98%N; 97%N; 99%N; 97%N] [97%N] = [[98%N]; [99%N]; []] /\ replace_fn [98%N; 97%N; 99%N; 97%N] [97%N] [120%N; 121%N] = [98%N; 120%N; 121%N; 99%N; 120%N; 121%N].
